@@ -220,8 +220,47 @@ impl WorldA {
             b3.push(0);
             cands.push((b3, Vec::new(), t));
             cands.push((base[..base.len() - 1].to_vec(), vec![base[base.len() - 1]], t));
-            for _ in 0..ngroups.max(2) {
-                let c = ctx.ch.pick(&cands).clone();
+            // epoch/threshold boundary under VARIABLE-LENGTH encodings of the threshold (decimal, hex,
+            // minimal bytes): epoch || enc(t) can be split in several ways, e.g. ("2024-1", 5) / ("2024-", 15)
+            {
+                let tb = 11 + ctx.ch.draw(289) as u32; // 11..299
+                let prefix: Vec<u8> = if ctx.ch.chance(1, 2) { b"2024-".to_vec() } else { base.clone() };
+                let dec = tb.to_string();
+                for cut in 0..dec.len() {
+                    let (head, tail) = dec.split_at(cut);
+                    if tail.starts_with('0') {
+                        continue;
+                    }
+                    if let Ok(tt) = tail.parse::<u32>() {
+                        let mut e = prefix.clone();
+                        e.extend_from_slice(head.as_bytes());
+                        cands.push((base.clone(), e, tt));
+                    }
+                }
+                let hex = format!("{:x}", tb);
+                for cut in 0..hex.len() {
+                    let (head, tail) = hex.split_at(cut);
+                    if tail.starts_with('0') {
+                        continue;
+                    }
+                    if let Ok(tt) = u32::from_str_radix(tail, 16) {
+                        let mut e = prefix.clone();
+                        e.extend_from_slice(head.as_bytes());
+                        cands.push((base.clone(), e, tt));
+                    }
+                }
+                // minimal little-endian bytes: t = 256 + b  <->  epoch ending in byte b, t = 1
+                let b = 1 + ctx.ch.draw(40) as u8;
+                let mut e = prefix.clone();
+                cands.push((base.clone(), e.clone(), 256 + b as u32));
+                e.push(b);
+                cands.push((base.clone(), e, 1));
+            }
+            let family_bias = ctx.ch.chance(1, 3);
+            let n_c = cands.len();
+            for k in 0..ngroups.max(2) {
+                // every third run concentrates on the variable-length-encoding family (the tail of cands)
+                let c = if family_bias { cands[n_c - 1 - (k + ctx.ch.index(3)) % 8.min(n_c)].clone() } else { ctx.ch.pick(&cands).clone() };
                 if c.2 >= 1 && !triples.contains(&c) {
                     triples.push(c);
                 }
